@@ -106,7 +106,7 @@ Definition spec_event (tbl : list entry) (s : sstate) (ev : event) : sstate :=
       {| sp_mtu := sp_mtu s; sp_nsess := sp_nsess s + 1; sp_avail := sp_avail s;
          sp_peers := upd_peer (sp_peers s) p
                        (fun _ => {| sp_ep := Some ep; sp_idx := Some ridx; sp_key := sp_nsess s + 1 |}) |}
-  | Roam p ep =>
+  | Roam p ep | SetEp p ep =>
       {| sp_mtu := sp_mtu s; sp_nsess := sp_nsess s; sp_avail := sp_avail s;
          sp_peers := upd_peer (sp_peers s) p
                        (fun x => {| sp_ep := Some ep; sp_idx := sp_idx x; sp_key := sp_key x |}) |}
